@@ -53,6 +53,12 @@ Proof.
   split; [rewrite L|rewrite E]; lia.
 Qed.
 
+Lemma NoDup_filter' {A} (f : A -> bool) l : NoDup l -> NoDup (filter f l).
+Proof.
+  induction 1 as [|a l Hn Hd IH]; simpl; [constructor|]. destruct (f a); [|assumption].
+  constructor; [|assumption]. rewrite filter_In. tauto.
+Qed.
+
 (** * unification *)
 Lemma missing_of_in U r x : In x (missing_of U r) <-> In x U /\ ~ ranked r x.
 Proof.
@@ -193,3 +199,24 @@ Qed.
 
 Theorem borda_complete_never_refused ub s D : is_complete D = true -> exists r, borda ub s D = Ok r.
 Proof. intros H. unfold borda. rewrite H. simpl. eauto. Qed.
+
+(** a unified ranking ranks exactly the universe, each element once *)
+Theorem unify_perm U r :
+  NoDup U -> NoDup (elems r) -> incl (elems r) U ->
+  Permutation (elems (unify U r)) U /\ (Forall (fun b => b <> []) r -> Forall (fun b => b <> []) (unify U r)).
+Proof.
+  intros NU Nr Hin.
+  assert (Nm : NoDup (missing_of U r)) by (unfold missing_of; apply NoDup_filter'; assumption).
+  assert (E : forall x, In x (elems r ++ missing_of U r) <-> In x U).
+  { intros x. rewrite in_app_iff, missing_of_in. unfold ranked. split.
+    - intros [H|[H _]]; auto.
+    - intros H. destruct (in_dec Nat.eq_dec x (elems r)); auto. }
+  assert (P : Permutation (elems r ++ missing_of U r) U).
+  { apply NoDup_Permutation; [|assumption|exact E].
+    apply NoDup_app_intro; [assumption|assumption|]. intros x H1 H2. apply missing_of_in in H2. unfold ranked in H2. tauto. }
+  unfold unify. destruct (missing_of U r) as [|m ms] eqn:Em.
+  - rewrite app_nil_r in P. split; [exact P|auto].
+  - split.
+    + unfold elems. rewrite concat_app. simpl. rewrite app_nil_r. exact P.
+    + intros H. apply Forall_app. split; [assumption|]. constructor; [discriminate|constructor].
+Qed.
